@@ -288,6 +288,14 @@ func judge(c Case, o Obs) []verdict {
 			out = append(out, verdict{v.clause + "@" + where, v.msg})
 		}
 	}
+	if c.Entry == "pin-read-fault" && o.Failed {
+		// a request that fails on the injected read error is fine, as long
+		// as it leaves the pinset alone
+		if o.Logged > 0 || o.Changed {
+			out = append(out, verdict{"failed-but-pinset-changed", fmt.Sprintf("request failed (%s) but the pinset changed", o.Err)})
+		}
+		return out
+	}
 	positive := mn > 0 && mx > 0
 	everywhere := mn == -1 && mx == -1
 	mutates := c.Entry != "block" && c.Entry != "allocate"
